@@ -365,6 +365,20 @@ pub fn check_copy(case: &CopyCase) -> CaseResult {
     if out.is_err() {
         return Ok(());
     }
+    // directories created on the way to the copy of a single file: the chmod option when it selects
+    // directories, else the mode of the source file's own directory
+    if skind == Some(Kind::File) {
+        let dirs_selected = matches!(case.variant, 1 | 2 | 6 | 7);
+        let src_parent_mode = pre.nodes.get(&parent(s)).map(|n| n.mode());
+        for (k, n) in &post.nodes {
+            if !pre.nodes.contains_key(k) && is_under(&base, k) && k != &base && n.kind() == Kind::Dir {
+                let want = if dirs_selected { Some(0o40000 | CMODE) } else { src_parent_mode };
+                if want.is_some() && Some(n.mode()) != want {
+                    return fail("created-ancestor-mode", format!("{:?} was created with mode {:o} want {:o}", k, n.mode(), want.unwrap()));
+                }
+            }
+        }
+    }
     if skind.is_none() && s != d {
         return fail("copied-missing-source", "Ok for a missing source".into());
     }
